@@ -40,12 +40,6 @@ def round53 (m : Int) : Int :=
     let q' := if r > half || (r == half && q % 2 == 1) then q + 1 else q
     (if m < 0 then -1 else 1) * ((q' * 2 ^ e : Nat) : Int)
 
-/-- `FactValue::as_float`, scaled by two (integers — `*i as f64`, rounded to 53 bits beyond 2^53 — and exact half-integer floats) -/
-def Val.twice? : Val → Option Int
-  | .int i => some (2 * round53 i)
-  | .flt t => some t
-  | _ => none
-
 inductive Cmp where
   | eq | ne | lt | le | gt | ge
   | contains | startsWith | endsWith   -- string operators of the typed core (`FactValue::contains` / `starts_with` / `ends_with`)
@@ -60,10 +54,61 @@ def wordLetters : Nat → Nat → List Char
   | 0, _ => []
   | fuel + 1, n => if n == 0 then [] else wordLetters fuel (n / 4) ++ [Char.ofNat (96 + n % 4)]
 
+/-- the strings `5000 + i` (harness table `QS`): leading / trailing / only blanks, the empty string, and texts that read as a
+number, a boolean or null — with and without blanks around them -/
+def oddStrings : List String := ["", " ", "  ", "7 ", " 7", "7", " 7 ", "1.5", "1.5 ", "true", " true", "null", "null ", "a ", " a",
+  "a b", " a ", "a\t", "-4", "15", "b ", " ab"]
+
 def strChars (k : Nat) : List Char :=
   if k ≥ 10000 then wordLetters (k - 10000 + 1) (k - 10000)
+  else if k ≥ 5000 then (oddStrings.getD (k - 5000) "?").toList
   else if k ≥ 1000 then ("T" ++ toString ((k - 1000) / 100) ++ ".f" ++ toString ((k - 1000) % 100)).toList
   else ("s" ++ toString k).toList
+
+/-- value of a non-empty run of ASCII digits -/
+def digitsVal (cs : List Char) : Option Nat :=
+  if cs.isEmpty || !cs.all Char.isDigit then none else some (cs.foldl (fun n c => 10 * n + (c.toNat - 48)) 0)
+
+/-- the classification chain of `AlphaNode::parse_value_string` on a stand-alone literal TEXT — and of `str::parse::<i64>` /
+`::<f64>` / `::<bool>`, none of which trims: `[+-]digits` is an Integer (beyond i64: the Float), `[+-]digits.digits` a Float (only
+values that are exact halves are in the modelled domain: anything else reads as `none` here and the generator stays clear of it;
+exponents, `inf`, `nan` likewise), `true` / `false` a Boolean, `null` Null; every other text — in particular every text with a
+blank in front of or behind the number — stays a String (`none`). -/
+def classifyText (cs : List Char) : Option Val :=
+  let neg := cs.head? == some '-'
+  let body := if cs.head? == some '-' || cs.head? == some '+' then cs.drop 1 else cs
+  let sgn : Int := if neg then -1 else 1
+  match digitsVal body with
+  | some n =>
+    let i : Int := sgn * (n : Int)
+    if -(2 ^ 63 : Int) ≤ i && i < (2 ^ 63 : Int) then some (.int i) else some (.flt (2 * round53 i))
+  | none =>
+    let ip := body.takeWhile Char.isDigit
+    match body.dropWhile Char.isDigit with
+    | '.' :: fp =>
+      (match digitsVal (if ip.isEmpty then ['0'] else ip), digitsVal (if fp.isEmpty then ['0'] else fp) with
+       | some a, some f =>
+         if ip.isEmpty && fp.isEmpty then none
+         else if (2 * f) % (10 ^ fp.length) == 0 && a < 2 ^ 52 then some (.flt (sgn * ((2 * a + 2 * f / 10 ^ fp.length : Nat) : Int)))
+         else none
+       | _, _ => none)
+    | _ =>
+      if cs == "true".toList then some (.bool true) else if cs == "false".toList then some (.bool false)
+      else if cs == "null".toList then some .null else none
+
+/-- the value an alpha node compares against when its value text is the text of `v` (`parse_value_string`, not an array, not a
+key of the fact view): a string literal whose text reads as a number / boolean / null loses its type -/
+def classifyLit : Val → Val
+  | .str k => (classifyText (strChars k)).getD (.str k)
+  | v => v
+
+/-- `FactValue::as_float`, scaled by two (integers — `*i as f64`, rounded to 53 bits beyond 2^53 —, exact half-integer floats, and
+strings whose text parses as a number: `s.parse::<f64>()`, no trimming) -/
+def Val.twice? : Val → Option Int
+  | .int i => some (2 * round53 i)
+  | .flt t => some t
+  | .str k => (match classifyText (strChars k) with | some (.int i) => some (2 * round53 i) | some (.flt t) => some t | _ => none)
+  | _ => none
 
 /-- `str::contains` on character lists -/
 def isInfix (p s : List Char) : Bool := (List.range (s.length + 1)).any (fun i => p.isPrefixOf (s.drop i))
